@@ -51,6 +51,10 @@ CHECKS = {
    "Per node class x default operation the real _propagate is run on a symbolic index path with uninterpreted sets of matching / other paths (i.e. for all truth assignments), the recursive calls stubbed by the same contract: the returned status equals the spec value (own report, else any / all of the children by operation kind and default, else the status of the nearest named ancestor-or-self; negations flipped afterwards), the two returned sets are exactly the children's sets plus this node's path on the side of its status, disjoint and complete, children are propagated with their index paths exactly when the construct propagates (not for ranges and fuzzy / proximity), the tree is untouched. _status_from_parent is proved with its recursive call on the strict prefix stubbed by its contract. __init__ / __call__ proved. A bounded sweep cross-checks the spec value against direct boolean evaluation under the statement's precondition.",
    "A1-A10; 'val is the boolean value under the precondition' and L-IND are paper steps; any / all / set union over an operand run by the list lemmas (A5).",
    "contract-based deductive verification: per-class propagation contract with z3 sets of integer sequences and uninterpreted membership, recursion stubbed by contract; bounded cross-check of the spec"),
+ "C03": ("exploration", "3.C03",
+   "PROVED per production / lexer rule (all values, operand counts and layouts): each action builds the documented node from its right-hand-side values in order (spec keyed by the grammar symbols of the statement), same-class operands are spliced and others kept (n-ary flattening), range / comparison inclusiveness and field names come from the token texts, numerals keep their value, a reserved word is an operator iff it is the whole token text; the result's fingerprint depends on texts and children only (layout independence). FINITE, exhaustive: loaded LALR tables equal an in-memory regeneration; conflict resolution in every state holding a completed AND/OR item is the mandated one (the + - TO entries are the recorded finding KF-D4). BOUNDED: precedence end to end is decided by a differential check against an independent reference parser written from the statement, over every accepted token sequence of <= 5 (quick) / 6 tokens in two whitespace layouts - hence level exploration.",
+   "A1-A10 for the proved clauses; no mechanised LR meta-theory: the end-to-end clause is bounded by token-sequence length. Known finding KF-D4 identified by the LALR table entries its runs use.",
+   "contract-based deductive verification of every grammar action and of the reserved-word rule (z3) + exhaustive finite audit of the live LALR tables + bounded differential testing against a reference parser"),
 }
 PENDING = {
 }
@@ -80,7 +84,7 @@ def main():
         "setup_cmd": "./setup.sh",
         "hooks": {"guard": "LUQUM_VERIF", "enable": "none needed: the loader reads /repo's working tree and instruments it in memory; no source hooks exist in /repo",
                   "baseline_off_cmd": "cd /repo && /venv/bin/python -m pytest -ra -q -p no:cacheprovider",
-                  "source_commits": ["b51bf59", "eaf23e2", "9e0facc", "370da04"], "add_only": True},
+                  "source_commits": ["b51bf59", "eaf23e2", "9e0facc", "370da04", "2908544"], "add_only": True},
         "engines": [{"name": "symx", "path": "vfkit/", "serves_properties": sorted(CHECKS),
                      "kind_free_text": "verification-condition generator: shadow symbolic execution of the real luqum functions under CPython with z3-term proxies (AST redirects listed in every evidence file), sidecar contracts in contracts/, obligations discharged by z3 5.1 with cvc5 as second opinion; bounded stand-ins run the unmodified code natively"}],
         "checks": checks,
